@@ -56,6 +56,10 @@ ASSUMPTIONS = [
 
 KNOWN_BRACE = 'C05-brace-override-keeps-old'
 KNOWN_UNION2 = 'C05-union-second-initializer'
+# VERIF_C05_UNIONFIX=1 (with VERIF_REPO=<copy of /repo with union-second-initializer.patch applied>): run the ALTERNATIVE model
+# Model/InitUnionFix.lean (`drv_c05 initu`) and generate second/third initializers in union lists as a matter of course
+UNIONFIX = bool(os.environ.get('VERIF_C05_UNIONFIX'))
+DRIVER_SUB = 'initu' if UNIONFIX else 'init'
 KNOWN_FLEX = 'C05-flex-reinit'      # region InitSpec.FlexReinit; reported as a known finding once known_findings.json lists it
 
 
@@ -613,6 +617,8 @@ class Gen:
         target = rng.choice([0, 1, 2, nleaves // 2, nleaves, nleaves, nleaves + 1]) if rng.random() < 0.5 else rng.randint(0, min(nleaves + 1, 9))
         if isinstance(t, Agg) and t.union:
             target = 1 if rng.random() < 0.93 else 2        # `{}` on a union is a GNU extension chibicc rejects; a second initializer is a known finding
+            if UNIONFIX:
+                target = rng.choice([1, 2, 2, 3])
         items = 0
         pdes = rng.choice([0.0, 0.0, 0.15, 0.4, 0.8])
         seen_paths = []
@@ -1078,7 +1084,7 @@ class Runner:
         """cases: list of case dicts.  Fills in case['result'] for each."""
         ctx, corr = self.ctx, self.corr
         lines = [' '.join(ty_words(c['ty']) + ['|'] + tok_words(c['toks'])) for c in cases]
-        answers = ctx.driver('init', '\n'.join(lines) + '\n').splitlines()
+        answers = ctx.driver(DRIVER_SUB, '\n'.join(lines) + '\n').splitlines()
         if len(answers) != len(cases):
             corr.disagreements.append({'kind': 'driver', 'what': f'{len(answers)} answers for {len(cases)} lines'})
             return
@@ -1162,6 +1168,8 @@ class Runner:
         t = c['ty']
         for f in c['features']:
             corr.count('feature:' + f)
+        for f in c['notes']:
+            corr.count('note:' + f)
         key = hashlib.sha1(c['line'].encode()).hexdigest()
         if any(isinstance(x, tuple) for x in c['toks']) or 'brace-elision' in c['features'] or 'string-no-terminator' in c['features']:
             corr.nontrivial.add(key)
@@ -1512,7 +1520,7 @@ def replay(ctx, corr, path):
         corr.extra['replay'] = 'replay file carries no case'
         return
     print('replay: declaration', rc['cdefs'], rc['ctext'])
-    print('replay: model answer', ctx.driver('init', rc['line'] + '\n').strip())
+    print('replay: model answer', ctx.driver(DRIVER_SUB, rc['line'] + '\n').strip())
     src = os.path.join(ctx.scratch, 'replay.c')
     decl_s = rc['ctext'].replace(' x', ' s0', 1)
     open(src, 'w').write(DUMP_C + rc['cdefs'] + '\nstatic ' + rc['ctext'].replace('x', 's0', 1) +
